@@ -104,6 +104,11 @@ def run_tlc(
         cmd.append("-Dtlc2.tool.queue.IStateQueue=StateDeque")
     if lib:
         cmd.append(f"-DTLA-Library={lib}")
+    # TLC leaves temporary files (extracted standard modules) in java.io.tmpdir at every start: keep them in the work
+    # directory, which is removed at the end of the check, instead of /tmp
+    jtmp = wd / "jtmp"
+    jtmp.mkdir(parents=True, exist_ok=True)
+    cmd.append(f"-Djava.io.tmpdir={jtmp}")
     cmd += ["-cp", TLA_CP, "tlc2.TLC", "-workers", str(workers), "-metadir", str(meta), "-noGenerateSpecTE"]
     if cfg:
         cmd += ["-config", cfg]
